@@ -10,10 +10,10 @@ import (
 type logical func(iterator, string, interface{}, interface{}) bool
 
 var logicalFuncs = [][]logical{
-	{cmpBooleanBoolean, nil, nil, nil},
-	{nil, cmpNumericNumeric, cmpNumericString, cmpNumericNodeSet},
-	{nil, cmpStringNumeric, cmpStringString, cmpStringNodeSet},
-	{nil, cmpNodeSetNumeric, cmpNodeSetString, cmpNodeSetNodeSet},
+	{cmpBooleanBoolean, cmpBooleanAny, cmpBooleanAny, cmpBooleanAny},
+	{cmpAnyBoolean, cmpNumericNumeric, cmpNumericString, cmpNumericNodeSet},
+	{cmpAnyBoolean, cmpStringNumeric, cmpStringString, cmpStringNodeSet},
+	{cmpAnyBoolean, cmpNodeSetNumeric, cmpNodeSetString, cmpNodeSetNodeSet},
 }
 
 // number vs number
@@ -60,8 +60,48 @@ func cmpBooleanBooleanF(op string, a, b bool) bool {
 		return a || b
 	case "and":
 		return a && b
+	case "=":
+		return a == b
+	case "!=":
+		return a != b
 	}
-	return false
+	// <, <=, >, >= compare the operands as numbers (true is 1, false is 0).
+	return cmpNumberNumberF(op, boolNumber(a), boolNumber(b))
+}
+
+func boolNumber(b bool) float64 {
+	if b {
+		return 1
+	}
+	return 0
+}
+
+// relationalNumber converts the non-boolean operand of a relational comparison
+// with a boolean to a number; a node-set is converted to a boolean first.
+func relationalNumber(t iterator, v interface{}) float64 {
+	if q, ok := v.(query); ok {
+		return boolNumber(asBool(t, q))
+	}
+	return asNumber(t, v)
+}
+
+// boolean vs number, string or node-set: for = and != the other operand is
+// converted with boolean(), for the relational operators both are numbers.
+func cmpBooleanAny(t iterator, op string, m, n interface{}) bool {
+	a := m.(bool)
+	if op == "=" || op == "!=" {
+		return cmpBooleanBooleanF(op, a, asBool(t, n))
+	}
+	return cmpNumberNumberF(op, boolNumber(a), relationalNumber(t, n))
+}
+
+// number, string or node-set vs boolean.
+func cmpAnyBoolean(t iterator, op string, m, n interface{}) bool {
+	b := n.(bool)
+	if op == "=" || op == "!=" {
+		return cmpBooleanBooleanF(op, asBool(t, m), b)
+	}
+	return cmpNumberNumberF(op, relationalNumber(t, m), boolNumber(b))
 }
 
 func cmpNumericNumeric(t iterator, op string, m, n interface{}) bool {
